@@ -69,8 +69,19 @@ Definition check_old (c : case) : N :=
   | None => 0
   end.
 
-(** cross-locale case: the same level of every locale of a project and the real merge results.
-    0 spec_cross holds; 4 it fails and the input is in the class [lone_other]; 3 it fails otherwise *)
-Definition check_cross (c : list (list (str * ival)) * list kmap) : N :=
-  let '(levels, outs) := c in
-  if spec_cross levels outs then 0 else if lone_other levels then 4 else 3.
+(** cross-locale case: the top level of every locale of a project and the real whole-project plural merging
+    (`LocalesOrNamespaces::merge_plurals`); None = it returned an error / panicked.
+    0 spec_cross holds and the result is the model's; 2 differs from the model (spec holds); 3 spec_cross fails;
+    4 it fails and the input is in the class [lone_other] (the defect repaired by fixes/C05-lone-other.diff) *)
+Definition kmap_eqb (a b : kmap) : bool :=
+  list_eqb (fun x y => str_eqb (fst x) (fst y) && oval_eqb (snd x) (snd y)) a b.
+Definition check_cross (c : list (list (str * ival)) * list str * option (list kmap)) : N :=
+  let '(levels, bad, impl) := c in
+  let is_key := fun b => negb (mem_str b bad) in
+  let model := merge_project is_key (fun _ => all_forms) levels in
+  match impl with
+  | Some outs =>
+      if negb (spec_cross levels outs) then (if lone_other levels then 4 else 3)
+      else match model with POk outs' => if list_eqb kmap_eqb outs outs' then 0 else 2 | _ => 2 end
+  | None => match model with POk _ => 2 | _ => 0 end
+  end.
